@@ -184,6 +184,15 @@ fn run_client(addr: SocketAddr, plan: ClientPlan, rng_seed: u64, barrier_reached
                     }
                 }
                 res.sent.push((id.clone(), Instant::now()));
+                if frames.len() > 1 && rng.chance(1, 2) {
+                    // fragments in separate writes with a pause: the next fragment is not yet readable when the
+                    // previous one has been consumed
+                    for f in frames {
+                        send_frames(vec![f]);
+                        std::thread::sleep(Duration::from_micros(rng.range(500, 3000)));
+                    }
+                    continue;
+                }
                 send_frames(frames);
             }
         }
@@ -273,6 +282,8 @@ fn scenario(r: &mut Report, seed: u64, k: u64) {
     }
     wsapp.on_connect(|s: AsyncStream, st: Arc<Arc<St>>| {
         st.log.lock().unwrap().push((Ev::Connect(s.peer_addr()), Instant::now()));
+        // the joining client is connected at this moment, so it is among the recipients of this broadcast
+        s.broadcast(Message::new(format!("J:{}", s.peer_addr())));
     });
     wsapp.on_disconnect(|s: AsyncStream, st: Arc<Arc<St>>| {
         st.log.lock().unwrap().push((Ev::Disconnect(s.peer_addr()), Instant::now()));
@@ -441,6 +452,15 @@ fn scenario(r: &mut Report, seed: u64, k: u64) {
                 }
             }
         }
+        if c.stayed_until_barrier && c.closed_gracefully {
+            let own = format!("J:{}", a);
+            let n = c.texts.iter().filter(|t| **t == own).count();
+            if n != 1 {
+                viol(r, "C12/broadcast-missed", format!("client {} received the broadcast its own connect handler sent {} times (it is connected at that moment)", i, n));
+            } else {
+                r.count("join_broadcasts_received_by_joiner", 1);
+            }
+        }
         if c.closed_gracefully && !c.close_reply {
             viol(r, "C12/close-not-answered", format!("client {} sent Close but received no Close frame back", i));
         }
@@ -524,5 +544,5 @@ pub fn main(args: &Args) {
         total.nontrivial(1);
         total.nontrivial(2);
     }
-    total.write(out, "scenarios of 1..8 reference clients against AsyncWebsocketApp::new_unlinked_with_config linked to a real App through async_websocket_handler: handler pools of 1 (every other scenario) or 2..8 threads, poll interval none / 1 ms / 10 ms, heartbeat off or (100 ms, 1.5 s); each client runs a random script over {text/binary messages in 1..4 fragments with pings interleaved, several per poll interval, ping, pauses <= 5 ms}, a quarter leave early with Close, with heartbeat a quarter disconnect abruptly; messages marked U trigger a unicast reply from the handler, B a broadcast; an external AsyncSender broadcasts concurrently; seeded delays at the three poll-loop failpoints; ends with shutdown of both apps. distinct = distinct scenarios; every scenario is non-trivial (all events of all clients are judged)", None, &["order is asserted only with a single handler thread (with more, handler entry order may legitimately differ from dispatch order)", "a broadcast must reach a client exactly once if that client's Connect was logged before the broadcast was submitted and it stayed until the final barrier", "abruptly disconnected clients: at-most-once and no foreign ids (the kernel may discard their unread bytes)"]);
+    total.write(out, "scenarios of 1..8 reference clients against AsyncWebsocketApp::new_unlinked_with_config linked to a real App through async_websocket_handler: handler pools of 1 (every other scenario) or 2..8 threads, poll interval none / 1 ms / 10 ms, heartbeat off or (100 ms, 1.5 s); each client runs a random script over {text/binary messages in 1..4 fragments with pings interleaved, several per poll interval, ping, pauses <= 5 ms}, a quarter leave early with Close, with heartbeat a quarter disconnect abruptly; messages marked U trigger a unicast reply from the handler, B a broadcast; every connect handler broadcasts a join notice, an external AsyncSender broadcasts concurrently; half of the fragmented messages are sent fragment by fragment with pauses; seeded delays at the three poll-loop failpoints; ends with shutdown of both apps. distinct = distinct scenarios; every scenario is non-trivial (all events of all clients are judged)", None, &["order is asserted only with a single handler thread (with more, handler entry order may legitimately differ from dispatch order)", "a broadcast must reach a client exactly once if that client's Connect was logged before the broadcast was submitted and it stayed until the final barrier", "abruptly disconnected clients: at-most-once and no foreign ids (the kernel may discard their unread bytes)"]);
 }
